@@ -62,7 +62,11 @@ func (m *SubDomainMatcher[T]) Match(s string) (T, bool) {
 }
 
 func (m *SubDomainMatcher[T]) Len() int {
-	return m.root.len()
+	l := m.root.len()
+	if m.root.hasValue() { // labelNode.len does not count the node itself. Count the root rule.
+		l++
+	}
+	return l
 }
 
 func (m *SubDomainMatcher[T]) Add(s string, v T) error {
